@@ -7,60 +7,61 @@ from .common import CACHE, NCPU, MachineryError, Ob, log, run
 KANI_FLAGS = ["-Z", "function-contracts", "-Z", "stubbing", "-Z", "unstable-options"]
 
 
+def _classify(blk):
+    text = "\n".join(blk)
+    secs = 0.0
+    mt = re.search(r"Verification Time: ([\d.]+)s", text)
+    if mt:
+        secs = float(mt.group(1))
+    if "CBMC failed" in text or "CBMC timed out" in text or "out of memory" in text:
+        return "undecided", "CBMC failed / timed out / out of memory", secs
+    if "VERIFICATION:- SUCCESSFUL" in text:
+        st = "discharged"
+    elif "VERIFICATION:- FAILED" in text:
+        st = "failed"
+    else:
+        return None
+    fails = "\n".join(l for l in blk if l.startswith("Failed Checks:") or l.strip().startswith("File:"))
+    if st == "failed":
+        fc = [l for l in blk if l.startswith("Failed Checks:")]
+        # unwinding assertion failures / unsupported constructs are machinery problems, not violations
+        if fc and all(("unwinding assertion" in l) or ("is not currently supported by Kani" in l)
+                      or ("not supported" in l and "Kani" in l) for l in fc):
+            st = "undecided"
+    return st, fails, secs
+
+
 def _parse(out):
     """Returns {harness_fullname: (status, failed_checks_text, seconds)} from cargo-kani output
-    (terse format, possibly multi-threaded)."""
+    (terse format, possibly multi-threaded: every block is introduced by `Thread N: ...`)."""
     res = {}
     cur = {}          # thread -> harness
-    lines = out.splitlines()
-    i = 0
-    single_cur = None
-    while i < len(lines):
-        ln = lines[i]
-        m = re.match(r"(?:Thread (\d+): )?Checking harness ([\w:<>]+)\.\.\.", ln)
+    blocks = []       # (thread, [lines])
+    th = "0"
+    blk = None
+    for ln in out.splitlines():
+        m = re.match(r"Thread (\d+): ?(.*)$", ln)
         if m:
-            th = m.group(1) or "0"
-            cur[th] = m.group(2)
-            single_cur = m.group(2)
-            i += 1
+            th = m.group(1)
+            rest = m.group(2)
+            blk = [rest]
+            blocks.append((th, blk))
             continue
-        m = re.match(r"(?:Thread (\d+): )?\s*$", ln)
-        if m and i + 1 < len(lines) and lines[i + 1].startswith("VERIFICATION RESULT"):
-            th = m.group(1) or "0"
-            h = cur.get(th, single_cur)
-            blk = []
-            j = i + 1
-            while j < len(lines) and not lines[j].startswith("Verification Time"):
-                if re.match(r"Thread \d+: ", lines[j]) and j > i + 1:
-                    break
-                blk.append(lines[j])
-                j += 1
-            secs = 0.0
-            if j < len(lines):
-                mt = re.match(r"Verification Time: ([\d.]+)s", lines[j])
-                if mt:
-                    secs = float(mt.group(1))
-            text = "\n".join(blk)
-            if "VERIFICATION:- SUCCESSFUL" in text:
-                st = "discharged"
-            elif "VERIFICATION:- FAILED" in text:
-                st = "failed"
-            else:
-                st = "undecided"
-            fails = "\n".join(l for l in blk if l.startswith("Failed Checks:") or l.strip().startswith("File:"))
-            # unwinding assertion failures / unsupported constructs are machinery problems
-            if st == "failed":
-                fc = [l for l in blk if l.startswith("Failed Checks:")]
-                if fc and all(("unwinding assertion" in l) or ("is not currently supported by Kani" in l)
-                              or ("not supported" in l and "Kani" in l) for l in fc):
-                    st = "undecided"
-                if "CBMC failed" in text or "timed out" in text.lower():
-                    st = "undecided"
-            if h:
-                res[h] = (st, fails, secs)
-            i = j + 1
+        if re.match(r"Checking harness ", ln):
+            blk = [ln]
+            blocks.append(("0", blk))
             continue
-        i += 1
+        if blk is not None:
+            blk.append(ln)
+    for th, blk in blocks:
+        m = re.match(r"Checking harness ([\w:<>]+)\.\.\.", blk[0])
+        if m:
+            cur[th] = m.group(1)
+            if len(blk) == 1:
+                continue
+        c = _classify(blk)
+        if c and th in cur:
+            res[cur[th]] = c
     return res
 
 
